@@ -10,6 +10,9 @@
 //! consistency computed by the reference, (e) usability: sign/verify, encrypt/decrypt, unlock with
 //! the right / wrong passphrase — using the re-imported key so that stripped MPIs must have been
 //! re-padded, (f) builder validation.  Leading-zero events are tallied per field.
+//! The requested metadata is varied per item: each of the four preference lists is empty or
+//! non-empty independently of the others, and the family `meta-matrix` enumerates every cell of
+//! {v4,v6} x 2^4 list emptiness x 2^2 features x 2^3 primary key flags.
 
 use pgp::composed::{
     ArmorOptions, Deserializable, DetachedSignature, DsaKeySize, EncryptionCaps, KeyType, Message,
@@ -362,6 +365,91 @@ fn random_sub(r: &mut ChaCha8Rng, v6: bool, locked: bool) -> SubShape {
     }
 }
 
+/// Preference lists: bit 0 of `mask` = symmetric, 1 = hash, 2 = compression, 3 = AEAD list is
+/// non-empty; the other lists stay empty (the builder default). Non-empty lists have 1..=N entries
+/// in random order, N reaching past the inline capacity of the builder's SmallVecs (8 / 8 / 8 / 4).
+fn draw_prefs(r: &mut ChaCha8Rng, mask: u8) -> (Vec<u8>, Vec<u8>, Vec<u8>, Vec<(u8, u8)>) {
+    let sym = if mask & 1 != 0 { subset(r, &[7, 8, 9, 10, 11, 12, 13, 3, 2, 1, 4], 11) } else { vec![] };
+    let hash = if mask & 2 != 0 { subset(r, &[8, 9, 10, 11, 12, 14, 2, 1, 3], 9) } else { vec![] };
+    let comp = if mask & 4 != 0 { subset(r, &[0, 1, 2, 3], 4) } else { vec![] };
+    let aead = if mask & 8 != 0 {
+        let mut pairs: Vec<(u8, u8)> = vec![];
+        for s in [7u8, 8, 9] {
+            for a in [1u8, 2, 3] {
+                pairs.push((s, a));
+            }
+        }
+        pairs.shuffle(r);
+        pairs.truncate(r.gen_range(1..=6));
+        pairs
+    } else {
+        vec![]
+    };
+    (sym, hash, comp, aead)
+}
+
+fn prefs_mask_name(s: &Shape) -> String {
+    let names: Vec<&str> = [(s.sym.is_empty(), "sym"), (s.hash.is_empty(), "hash"), (s.comp.is_empty(), "comp"), (s.aead.is_empty(), "aead")]
+        .iter()
+        .filter(|x| !x.0)
+        .map(|x| x.1)
+        .collect();
+    if names.is_empty() {
+        "none".into()
+    } else {
+        names.join("+")
+    }
+}
+
+/// Cell of the exhaustive metadata matrix: {v4,v6} x 2^4 empty/non-empty preference lists x
+/// 2^2 features x 2^3 primary key flags (certify, sign, authenticate) = 1024 cells. Everything
+/// else (list contents, user ids, creation time) is drawn from `r`.
+const META_CELLS: u64 = 2 * 16 * 4 * 8;
+
+fn meta_matrix_shape(r: &mut ChaCha8Rng, cell: u64, rep: u64) -> Shape {
+    let v6 = cell & 1 == 1;
+    let mask = ((cell >> 1) & 15) as u8;
+    let feat = (cell >> 5) & 3;
+    let flags = (cell >> 7) & 7;
+    let primary = if v6 {
+        [Alg::Ed25519, Alg::P256, Alg::Ed448][((cell >> 1) + rep) as usize % 3]
+    } else {
+        [Alg::EdLegacy, Alg::Ed25519, Alg::P256][((cell >> 1) + rep) as usize % 3]
+    };
+    let nuids = if v6 { r.gen_range(0..=2) } else { r.gen_range(1..=2) };
+    let uids: Vec<String> = (0..nuids).map(|i| random_uid(r, i)).collect();
+    let has_primary = !v6 || (nuids > 0 && r.gen_range(0..3) != 0);
+    let (sym, hash, comp, aead) = draw_prefs(r, mask);
+    let subs = if (cell + rep) % 4 == 0 {
+        vec![SubShape { alg: Alg::X25519, sign: false, enc: EncryptionCaps::All, auth: false, locked: false, created_off: 0 }]
+    } else {
+        vec![]
+    };
+    Shape {
+        v6,
+        primary,
+        certify: flags & 1 != 0,
+        sign: flags & 2 != 0,
+        auth: flags & 4 != 0,
+        enc: EncryptionCaps::None,
+        feat1: feat & 1 != 0,
+        feat2: feat & 2 != 0,
+        uids,
+        has_primary,
+        attr: None,
+        sym,
+        hash,
+        comp,
+        aead,
+        pass: None,
+        lock_primary: false,
+        s2k: S2kKind::CfbIter,
+        subs,
+        created: r.gen_range(1_000_000_000..1_750_000_000),
+        uncertain: false,
+    }
+}
+
 /// Shape of a key with a fast primary algorithm; everything but the primary algorithm and the
 /// version (alternating) is drawn from `r`.
 fn fast_shape(r: &mut ChaCha8Rng, primary: Alg, j: u64) -> Shape {
@@ -375,22 +463,9 @@ fn fast_shape(r: &mut ChaCha8Rng, primary: Alg, j: u64) -> Shape {
         r.fill_bytes(&mut v);
         v
     });
-    let (sym, hash, comp, aead) = if r.gen_range(0..4) == 0 {
-        (vec![], vec![], vec![], vec![])
-    } else {
-        let sym = subset(r, &[7, 8, 9, 10, 11, 12, 13, 3, 2], 8);
-        let hash = subset(r, &[8, 9, 10, 11, 12, 14, 2], 7);
-        let comp = subset(r, &[0, 1, 2, 3], 4);
-        let mut pairs: Vec<(u8, u8)> = vec![];
-        for s in [7u8, 8, 9] {
-            for a in [1u8, 2, 3] {
-                pairs.push((s, a));
-            }
-        }
-        pairs.shuffle(r);
-        pairs.truncate(r.gen_range(0..=5));
-        (sym, hash, comp, pairs)
-    };
+    // every preference list is empty / non-empty independently of the others (16 combinations)
+    let mask = r.gen_range(0..16u8);
+    let (sym, hash, comp, aead) = draw_prefs(r, mask);
     let locked = r.gen_range(0..5) < 2;
     let (lock_primary, lock_subs) = if locked {
         pick(r, &[((true, true), 14), ((true, false), 3), ((false, true), 3)])
@@ -909,7 +984,11 @@ fn list_ok(sp: Option<&RefSubpacket>, want: &[u8]) -> bool {
 /// reference check of the metadata subpackets; `exact` = this is the signature that must carry
 /// them (otherwise only: what is present must not contradict the request)
 fn check_meta_ref(k: &mut K, what: &str, hashed: &[RefSubpacket], m: &Meta, exact: bool) {
-    let show = |t: u8| find_sp(hashed, t).map(|s| hex::encode(&s.body)).unwrap_or_else(|| "absent".into());
+    let show = |t: u8| match find_sp(hashed, t) {
+        None => "absent".to_string(),
+        Some(s) if s.body.is_empty() => "present and empty".to_string(),
+        Some(s) => hex::encode(&s.body),
+    };
     let checks: [(u8, &str, bool, String); 6] = [
         (27, "key-flags", flags_ok(find_sp(hashed, 27), m.flags), format!("{:02x}", m.flags)),
         (30, "features", flags_ok(find_sp(hashed, 30), m.features), format!("{:02x}", m.features)),
@@ -925,7 +1004,7 @@ fn check_meta_ref(k: &mut K, what: &str, hashed: &[RefSubpacket], m: &Meta, exac
         if !ok {
             k.v(
                 format!("C07/meta-ref/{name}"),
-                format!("{what}: subpacket {t} is {} but {want} was requested", show(t)),
+                format!("{what}: subpacket {t} is {} but {} was requested", show(t), if want.is_empty() { "an empty list" } else { want.as_str() }),
             );
         }
     }
@@ -1267,7 +1346,21 @@ fn check_key(ctx: &mut Ctx, fam: &str, idx: u64, s: &Shape) {
     if s.attr.is_some() {
         k.ctx.seen("uids", "user-attribute");
     }
-    k.ctx.seen("prefs", if s.sym.is_empty() { "empty" } else { "some" });
+    k.ctx.seen("prefs", if s.sym.is_empty() && s.hash.is_empty() && s.comp.is_empty() && s.aead.is_empty() { "empty" } else { "some" });
+    k.ctx.seen("prefs-mask", format!("{ver}-{}", prefs_mask_name(s)));
+    k.ctx.seen(
+        "features",
+        format!(
+            "{ver}-{}",
+            match (s.feat1, s.feat2) {
+                (false, false) => "none",
+                (true, false) => "seipd1",
+                (false, true) => "seipd2",
+                (true, true) => "seipd1+seipd2",
+            }
+        ),
+    );
+    k.ctx.seen("primary-flags", format!("{ver}-{:02x}", s.primary_flags()));
 
     // (a) bindings
     let plabel = s.primary.name();
@@ -2187,6 +2280,25 @@ pub fn run(ctx: &mut Ctx) {
         let mut r = ctx.rng("default-s2k.shape", j);
         let s = default_s2k_shape(&mut r, j);
         run_case(ctx, "default-s2k", j, &s);
+    }
+    // metadata matrix: every cell of {v4,v6} x empty/non-empty preference lists x features x
+    // primary key flags, 8 keys per case
+    let reps = ctx.qt(1u64, 8);
+    for rep in 0..reps {
+        for group in 0..META_CELLS / 8 {
+            if !ctx.mine() {
+                continue;
+            }
+            for cell in group * 8..group * 8 + 8 {
+                let j = rep * META_CELLS + cell;
+                let mut r = ctx.rng("meta-matrix.shape", j);
+                let s = meta_matrix_shape(&mut r, cell, rep);
+                run_case(ctx, "meta-matrix", j, &s);
+                if j == 1 + 2 * 9 {
+                    ctx.sample(json!({"family": "meta-matrix", "index": j, "shape": s.desc()}));
+                }
+            }
+        }
     }
     // fast algorithms: N keys per primary algorithm, chosen so that each 1/256 leading-zero event
     // is expected >= 9 times per field (P(no event) < 1e-4)
